@@ -327,6 +327,23 @@ func handshakeJobs(thorough bool) []Job {
 			}
 		}
 	}
+	// unusual file names (255 bytes, spaces, UTF-8, 1 byte) and offsets around 2^31 and up to 2^32-1
+	h3 := e1.Hist("H3")
+	for fi, f := range h3.Files {
+		for bi, b := range h3.Boundaries(fi) {
+			pacing := []string{"first", "lock"}[(fi+bi)%2]
+			sc := base(fmt.Sprintf("H3/%s/start-file%d:%d", pacing, fi, b), "H3", pacing)
+			sc.StartFile, sc.StartPos, sc.ServerID = f.Name, b, 1<<32-1
+			sc.Attempts = []e1.Attempt{clean()}
+			jobs = append(jobs, Job{Sc: sc, Bound: bound})
+			// and as a resume position after a failed first attempt
+			sc2 := base(fmt.Sprintf("H3/%s/start-file%d:%d/retry", pacing, fi, b), "H3", pacing)
+			sc2.StartFile, sc2.StartPos, sc2.ServerID = f.Name, b, 1<<31
+			a := att(simmaster.Plan{At: 4, Kind: "fin", Final: "silent"})
+			sc2.Attempts = []e1.Attempt{a, clean()}
+			jobs = append(jobs, Job{Sc: sc2, Bound: bound})
+		}
+	}
 	// attempt sequences: position after clean run, after rotation, after each fault class
 	for _, sc := range retryScenarios("H2", false) {
 		sc.ServerID = 1 << 31
